@@ -106,6 +106,20 @@ CHECKS = {
    text="After every run and reset the lengths of all time variables, their kinds, the advertised set against what the spec says is recorded (from the element data and its mating), and live attributes against last samples are validated. Shared campaign: seeded random chains of 2..12 elements, loads of (position, speed, time), control rule sets, stop conditions, schedules run/continue/reset/rerun in any time unit, half of them with every input quantity in a random unit; every recorded instant is one TLC state of Trace_Solver.tla, the solver's private lock bit is an unlogged spec variable.",
    ref='DESIGN.md section 4 C17',
    note=TB + '; decisions within 1e-9 relative of their threshold are not judged (the trace spec branches); instances are seeded random, not exhaustive.'),
+
+ 'C12': dict(
+   technique='pairs of recorded executions compared by TLC (Trace_Pair.tla: split vs single within rounding, reset+rerun sample-identical), each execution also a behaviour of Trace_Solver.tla whose lock bit is a spec variable reset by a fresh run',
+   text=('For seeded random models (self-locking chains ending a run held, controlled motors, time-dependent loads): one run of n1+n2 steps vs run n1 then continue n2 with dt/T in other time units must give the same axis and histories; '
+         'schedule; reset; re-apply initial conditions; repeat on the same or a new Solver must reproduce every sample exactly. Both directions are decided by TLC on the recorded histories; every single execution is additionally '
+         'validated instant by instant against the solver step relation (so a hidden state surviving between runs shows up either as a pair mismatch or as an unexplained instant).'),
+   ref='DESIGN.md section 4 C12',
+   note=TB + '; well-conditioned dynamics only (no spring-like / negative-damping loads) so that "same up to rounding" is decidable; known finding F4 is matched structurally.'),
+ 'C07': dict(
+   technique='every model executed twice (SI units vs every input quantity in a random unit, unit table from Units.tla) and the two recorded executions compared by TLC (Trace_Pair.tla); the re-expressed execution must itself be a behaviour of Trace_Solver.tla',
+   text=('The specification is unit-blind (SI rationals); Units.tla generates the presentations. Construction outcome, per-call outcomes, stop instants and all histories of the two presentations must agree; '
+         'the unit list of every input kind is covered across the campaign (reported), time units of dt / T / continuation are re-chosen per run.'),
+   ref='DESIGN.md section 4 C07, 2.3',
+   note=TB + '; pairs containing a decision within rounding distance of its threshold (reported by the trace spec as U| lines) are counted as unjudged.'),
 }
 
 ALL = ['C%02d' % i for i in range(1, 21)]
